@@ -207,6 +207,11 @@ class FuncDependentType(ParametrizedDependentType):
         return self._default_bound
 
     def __lt__(self, other):
+        if getattr(type(self), "func", type(self)) is not getattr(
+            type(other), "func", type(other)
+        ):
+            # Parameters of different checks do not compare
+            return False
         if len(self.parameters) != len(other.parameters):
             return False
         p1g = sum(
